@@ -11739,6 +11739,7 @@ Tree_init(Tree *self, PyObject *args, PyObject *kwds)
 {
     int ret = -1;
     int err;
+    long sample_id;
     static char *kwlist[] = { "tree_sequence", "options", "tracked_samples", NULL };
     PyObject *py_tracked_samples = NULL;
     TreeSequence *tree_sequence = NULL;
@@ -11778,11 +11779,13 @@ Tree_init(Tree *self, PyObject *args, PyObject *kwds)
             PyErr_SetString(PyExc_TypeError, "sample must be a number");
             goto out;
         }
-        tracked_samples[j] = (tsk_id_t) PyLong_AsLong(item);
-        if (tracked_samples[j] < 0 || tracked_samples[j] >= (tsk_id_t) num_nodes) {
+        /* Check in the wide type so that huge values cannot wrap to valid ids */
+        sample_id = PyLong_AsLong(item);
+        if (sample_id < 0 || sample_id >= (long) num_nodes) {
             PyErr_SetString(PyExc_ValueError, "samples must be valid nodes");
             goto out;
         }
+        tracked_samples[j] = (tsk_id_t) sample_id;
     }
     self->tree = PyMem_Malloc(sizeof(tsk_tree_t));
     if (self->tree == NULL) {
